@@ -197,6 +197,9 @@ Deactivate(k) ==
          /\ UNCHANGED <<deleg, stake, allowed, lock, lidx, modBal>>
     ELSE Rejected
 
+\* allowed_denoms is a SET: a governance list that names a denom twice must either be refused or count the
+\* denom once (the driver sends such lists through MsgUpdateParams; the trace spec reads `allowed` back as a
+\* set and compares the code's total power with PowerOf over that set)
 SetAllowed(D) ==
     /\ allowed' = D
     /\ out' = "ok"
